@@ -561,6 +561,11 @@ class C13Check(Check):
 
     # violations that hinge on object identities (address reuse) depend on the heap of the interpreter that runs them
     replay_attempts = 3
+    # a violation that stems from state the library keeps ACROSS objects (e.g. a module-level cache keyed by id()) may
+    # depend on what the same worker process ran before; only a plan that reproduces it on its own is reported, so more
+    # runs of a group are tried before giving up (giving up is a harness error, exit 3, never exit 0)
+    group_tries = 16
+    replay_budget = 48
 
     def n_runs(self, tier):
         return self.runs[tier]
